@@ -144,9 +144,9 @@ func (x Expr) GetNodes(n gen.Node) (results []gen.Node) {
 			if (int64(di) & descentFlag) == 0 {
 				switch tv := prev.(type) {
 				case gen.Object:
-					// Put prev back and slide fi.
-					stack[len(stack)-1] = prev
-					stack = append(stack, di|descentFlag)
+					// Put prev back under a frame of its own; the frame it came with
+					// may still serve siblings below it.
+					stack = append(stack, prev, di|descentFlag)
 					if fi == index(len(x))-1 { // last one
 						for _, v = range tv {
 							results = append(results, v)
@@ -160,9 +160,9 @@ func (x Expr) GetNodes(n gen.Node) (results []gen.Node) {
 						}
 					}
 				case gen.Array:
-					// Put prev back and slide fi.
-					stack[len(stack)-1] = prev
-					stack = append(stack, di|descentFlag)
+					// Put prev back under a frame of its own; the frame it came with
+					// may still serve siblings below it.
+					stack = append(stack, prev, di|descentFlag)
 					if fi == index(len(x))-1 { // last one
 						for _, v = range tv {
 							results = append(results, v)
@@ -452,9 +452,9 @@ func (x Expr) FirstNode(n gen.Node) (result gen.Node) {
 			if (int64(di) & descentFlag) == 0 {
 				switch tv := prev.(type) {
 				case gen.Object:
-					// Put prev back and slide fi.
-					stack[len(stack)-1] = prev
-					stack = append(stack, di|descentFlag)
+					// Put prev back under a frame of its own; the frame it came with
+					// may still serve siblings below it.
+					stack = append(stack, prev, di|descentFlag)
 					if fi == index(len(x))-1 { // last one
 						for _, v = range tv {
 							return v
@@ -468,9 +468,9 @@ func (x Expr) FirstNode(n gen.Node) (result gen.Node) {
 						}
 					}
 				case gen.Array:
-					// Put prev back and slide fi.
-					stack[len(stack)-1] = prev
-					stack = append(stack, di|descentFlag)
+					// Put prev back under a frame of its own; the frame it came with
+					// may still serve siblings below it.
+					stack = append(stack, prev, di|descentFlag)
 					if fi == index(len(x))-1 { // last one
 						if 0 < len(tv) {
 							return tv[0]
